@@ -202,11 +202,58 @@ def scan_links(res):
         res['violations'].append({'class': 'link-frame', 'what': ['setLayers referenced in %r (expected within %r)' % (sorted(callers), sorted(want_c))]})
 
 
+def post_construct(res):
+    """a layer added on top of a constructed stack (YowStack.addPostConstructLayer) for every height 2..6, tuple and builder way:
+    data and events must still visit every layer once, in order, in both directions"""
+    sec = res['sections'].setdefault('post-construct', {'n': 0, 'bad': 0})
+    for depth in range(2, 7):
+        for how in ('tuple', 'builder'):
+            sec['n'] += 1
+            res['evaluations'] += 1
+            names = ['L%d' % i for i in range(depth)]
+            classes = [mk(n) for n in names]
+            try:
+                if how == 'tuple':
+                    st = YowStack(tuple(classes[::-1]))            # top first
+                else:
+                    b = YowStackBuilder()
+                    for c in classes:
+                        b.push(c)
+                    st = b.build()
+                extra = mk('X')()
+                st.addPostConstructLayer(extra)
+                order = names + ['X']
+                probs = []
+                del LOG[:]
+                st.send([])
+                if [e[1] for e in LOG if e[0] == 'send'] != order[::-1]:
+                    probs.append('send path %r' % [e[1] for e in LOG if e[0] == 'send'])
+                del LOG[:]
+                st.receive([])
+                if [e[1] for e in LOG if e[0] == 'recv'] != order:
+                    probs.append('receive path %r' % [e[1] for e in LOG if e[0] == 'recv'])
+                del LOG[:]
+                st.broadcastEvent(YowLayerEvent('ev'))
+                if [e[1] for e in LOG if e[0] == 'event'] != order[::-1]:
+                    probs.append('broadcast path %r' % [e[1] for e in LOG if e[0] == 'event'])
+                del LOG[:]
+                st.emitEvent(YowLayerEvent('ev'))
+                if [e[1] for e in LOG if e[0] == 'event'] != order:
+                    probs.append('emit path %r' % [e[1] for e in LOG if e[0] == 'event'])
+                if probs:
+                    sec['bad'] += 1
+                    res['violations'].append({'class': 'post-construct', 'what': ['height %d (%s): %s' % (depth, how, '; '.join(probs))]})
+            except Exception as e:
+                sec['bad'] += 1
+                res['violations'].append({'class': 'post-construct', 'what': ['height %d (%s): %r' % (depth, how, e)]})
+
+
 def run(tier, seed, out):
     rng = random.Random(seed)
     res = {'evaluations': 0, 'distinct': 0, 'violations': [], 'samples': [], 'sections': {}}
     t0 = time.time()
     scan_links(res)
+    post_construct(res)
     names = ['A', 'B', 'C', 'D', 'E', 'F', 'G', 'H', 'I', 'J', 'K', 'L', 'M', 'N', 'O', 'P']
     shapes = []
     maxd = 3 if tier == 'quick' else 4
